@@ -481,8 +481,8 @@ let gridgen_query (toks : string list) (rhs : string) : string =
 
 (* ---------------- C11 parallel regions ---------------- *)
 let par_dims = ref { d_nr = z0; d_nt = z0; d_nsc = z0 }
-let arr_of = function "x" -> AX | "rhs" -> ARhs | "temp" -> ATemp | "res" -> ARes | s -> failwith ("array " ^ s)
-let arr_name = function AX -> "x" | ARhs -> "rhs" | ATemp -> "temp" | ARes -> "res" | ASolverC -> "circle-solver" | ASolverR -> "radial-solver" | AScratch -> "scratch"
+let arr_of = function "x" -> AX | "rhs" -> ARhs | "temp" -> ATemp | "res" -> ARes | "mat" -> AMat | s -> failwith ("array " ^ s)
+let arr_name = function AX -> "x" | ARhs -> "rhs" | ATemp -> "temp" | ARes -> "res" | ASolverC -> "circle-solver" | ASolverR -> "radial-solver" | AScratch -> "scratch" | AMat -> "matrix-row"
 let task_of op task idx colour =
   let i = zs idx in
   let white = (colour = "white") in
@@ -491,6 +491,10 @@ let task_of op task idx colour =
   | "residualGive", "radial" -> ResGiveRadial i
   | "residualTake", "circle" -> ResTakeCircle i
   | "residualTake", "radial" -> ResTakeRadial i
+  | "directGive", "asmCircle" -> AsmGiveCircle i
+  | "directGive", "asmRadial" -> AsmGiveRadial i
+  | "directTake", "asmCircle" -> AsmTakeCircle i
+  | "directTake", "asmRadial" -> AsmTakeRadial i
   | ("smootherGive" | "extSmootherGive"), "ascCircle" -> AscCircle (true, i, white)
   | ("smootherGive" | "extSmootherGive"), "ascRadial" -> AscRadial (true, i, white)
   | ("smootherTake" | "extSmootherTake"), "ascCircle" -> AscCircle (false, i, white)
@@ -503,12 +507,17 @@ let rec task_str = function
   | ResGiveRadial i -> "ResidualGive::applyRadialSection(" ^ zi i ^ ")"
   | ResTakeCircle i -> "ResidualTake::applyCircleSection(" ^ zi i ^ ")"
   | ResTakeRadial i -> "ResidualTake::applyRadialSection(" ^ zi i ^ ")"
+  | AsmGiveCircle i -> "DirectSolverGiveCustomLU::buildSolverMatrixCircleSection(" ^ zi i ^ ")"
+  | AsmGiveRadial i -> "DirectSolverGiveCustomLU::buildSolverMatrixRadialSection(" ^ zi i ^ ")"
+  | AsmTakeCircle i -> "DirectSolverTakeCustomLU::buildSolverMatrixCircleSection(" ^ zi i ^ ")"
+  | AsmTakeRadial i -> "DirectSolverTakeCustomLU::buildSolverMatrixRadialSection(" ^ zi i ^ ")"
   | AscCircle (g, i, w) -> Printf.sprintf "%s::applyAscOrthoCircleSection(%s,%s)" (if g then "give" else "take") (zi i) (if w then "White" else "Black")
   | AscRadial (g, i, w) -> Printf.sprintf "%s::applyAscOrthoRadialSection(%s,%s)" (if g then "give" else "take") (zi i) (if w then "White" else "Black")
   | SolveCircle (p, i) -> Printf.sprintf "solveCircleSection(%s)%s" (zi i) (if p then "" else "[shared scratch]")
   | SolveRadial (p, i) -> Printf.sprintf "solveRadialSection(%s)%s" (zi i) (if p then "" else "[shared scratch]")
 
-let par_regions = [ ("residual_give", gen_residual_give); ("residual_take", gen_residual_take); ("smoother_give", gen_smoother_give);
+let par_regions = [ ("residual_give", gen_residual_give); ("residual_take", gen_residual_take);
+                    ("direct_give_assembly", gen_direct_give_assembly); ("direct_take_assembly", gen_direct_take_assembly); ("smoother_give", gen_smoother_give);
                     ("smoother_take", gen_smoother_take); ("ext_smoother_give", gen_ext_smoother_give); ("ext_smoother_take", gen_ext_smoother_take) ]
 
 let par_query (toks : string list) (_rhs : string) : string =
